@@ -272,11 +272,11 @@ def rule_progress(report, prog):
     from . import t3model
     folded = {'_read_ndef_data': t3model.read_verdicts(prog), '_write_ndef_data': t3model.write_verdicts(prog)}
     zero = t3model.zero_stride(prog)
-    for fname, attr, limit in (('_read_ndef_data', 'nbr', 15), ('_write_ndef_data', 'nbw', 13)):
+    for fname, attr, limit in (('_read_ndef_data', 'nbr', 15), ('_write_ndef_data', 'nbw', 12)):
         fn = prog.func('nfc.tag.tt3.Type3Tag.NDEF.' + fname)
         if not any('cannot fold' in v_ for v_ in folded[fname]):
             n += 1
-            over = [v_ for v_ in folded[fname] if 'a command addresses' in v_]
+            over = [v_ for v_ in folded[fname] if 'a command addresses' in v_ or 'needs a frame of' in v_]
             report.check(not over, 'C08-R3', key(fn.qname, 'blocks per command cut to what one frame can carry'), fn.loc(),
                          'the number of blocks per command is not cut to %d: %s (the command length octet overflows, ValueError out of tag.ndef)'
                          % (limit, '; '.join(over[:2])))
@@ -476,7 +476,7 @@ MUTANTS = [
     ('tt3-polling-length-by-response-only', 'nfc.tag.tt3', "        if len(data) != (16 if request_code == 0 else 18):", "        if len(data) not in (16, 18):", 'C08-R5'),
     ('tt3-read-stride-unbounded', 'nfc.tag.tt3', "nbr = min(attributes['nbr'], 15)", "nbr = attributes['nbr']", 'C08-R3'),
     ('tt3-read-stride-second-operand-untested', 'nfc.tag.tt3', "nbr = min(attributes['nbr'], 15)", "nbr = min(attributes['nbr'], attributes['nmaxb'], 15)", 'C08-R3'),
-    ('tt3-write-stride-unbounded', 'nfc.tag.tt3', "nbw = min(attributes['nbw'], 13)", "nbw = min(attributes['nbw'], 130)", 'C08-R3'),
+    ('tt3-write-stride-unbounded', 'nfc.tag.tt3', "nbw = min(attributes['nbw'], 12)", "nbw = min(attributes['nbw'], 130)", 'C08-R3'),
     ('tt2-read-tlv-unguarded', 'nfc.tag.tt2', """                try:
                     tlv = read_tlv(tag_memory, offset, skip_bytes)
                     tlv_t, tlv_l, tlv_v = tlv
